@@ -4,6 +4,7 @@ import (
 	"go/ast"
 	"go/token"
 	"go/types"
+	"strings"
 
 	"sialint/internal/cfgx"
 	"sialint/internal/ir"
@@ -71,6 +72,33 @@ func origin(f *ir.Func, e ast.Expr) ast.Expr {
 			if d, ok := soleAssignmentAfterDecl(f, defs, id); ok {
 				e = d.RHS
 				continue
+			}
+		}
+		if len(defs) > 1 {
+			// placeholders on a helper's failure path (a bare declaration, nil, `T{}`) next to the one definition
+			// that carries a value, which dominates this use
+			var real []ir.Write
+			for _, d := range defs {
+				if vs, ok := d.Stmt.(*ast.ValueSpec); ok && len(vs.Values) == 0 {
+					continue
+				}
+				if d.RHS != nil {
+					if f.IsNil(d.RHS) {
+						continue
+					}
+					if cl, ok := ast.Unparen(d.RHS).(*ast.CompositeLit); ok && len(cl.Elts) == 0 {
+						continue
+					}
+				}
+				real = append(real, d)
+			}
+			if len(real) == 1 && real[0].RHS != nil {
+				g := f.Graph()
+				un, an := g.NodeContaining(id.Pos()), g.NodeContaining(real[0].LHS.Pos())
+				if un != nil && an != nil && un != an && g.DominatedByNode(un, an) {
+					e = real[0].RHS
+					continue
+				}
 			}
 		}
 		if len(defs) != 1 || defs[0].RHS == nil {
@@ -301,7 +329,34 @@ func reqVar(f *ir.Func, readRequest *types.Func) (types.Object, *ast.CallExpr) {
 			}
 		}
 	}
+	// a handler body that is handed the decoded request by a shared read/respond/write bracket
+	if o := reqParam(f); o != nil {
+		return o, nil
+	}
 	return nil, nil
+}
+
+// reqParam returns the parameter of f that is a pointer to one of core's RPC request types, if any.
+func reqParam(f *ir.Func) types.Object {
+	if f.Type == nil || f.Type.Params == nil {
+		return nil
+	}
+	for _, fld := range f.Type.Params.List {
+		for _, nm := range fld.Names {
+			o := f.Info().Defs[nm]
+			if o == nil {
+				continue
+			}
+			pt, ok := o.Type().(*types.Pointer)
+			if !ok {
+				continue
+			}
+			if nt, ok := pt.Elem().(*types.Named); ok && nt.Obj().Pkg() != nil && nt.Obj().Pkg().Path() == ir.PkgPath("rhp4") && strings.HasSuffix(nt.Obj().Name(), "Request") {
+				return o
+			}
+		}
+	}
+	return nil
 }
 
 // hasMethodNamed reports whether *T (T = obj's type) has a method with the given name and returns it.
@@ -309,7 +364,11 @@ func methodOfVar(obj types.Object, name string) *types.Func {
 	if obj == nil {
 		return nil
 	}
-	m, _, _ := types.LookupFieldOrMethod(types.NewPointer(obj.Type()), true, obj.Pkg(), name)
+	t := obj.Type()
+	if _, isPtr := t.(*types.Pointer); !isPtr {
+		t = types.NewPointer(t)
+	}
+	m, _, _ := types.LookupFieldOrMethod(t, true, obj.Pkg(), name)
 	fn, _ := m.(*types.Func)
 	if fn != nil {
 		return fn.Origin()
